@@ -88,8 +88,14 @@ pub fn take_from_slot(owner: Oid, owner_payload: usize, s: usize) -> Option<(Oid
 
 /// `cc.clone()` with shadow bookkeeping left to the caller (who stores the result at once).
 pub fn prim_clone(cc: &Cc<Node>) -> Cc<Node> {
-    let _b = Bracket::open();
-    cc.clone()
+    let c = {
+        let _b = Bracket::open();
+        cc.clone()
+    };
+    // C11 model: cloning un-buffers
+    let id = unsafe { &*payload_of(cc) }.id;
+    buf_leave(id);
+    c
 }
 
 #[cfg(feature = "weak-ptrs")]
@@ -136,6 +142,7 @@ pub fn prim_upgrade(wk: &Weak<Node>, target: Option<Oid>, top_level: bool) -> Op
             }
             (Some(cc), Some(t), Some((dropped, moved, uninit, in_box, _strong, _tainted, _))) => {
                 w.stats.upgrades_some += 1;
+                buf_leave(t);
                 let snap = verif::object_snapshot(cc);
                 let o = &w.objs[t as usize];
                 if dropped || moved || uninit || !in_box {
@@ -238,6 +245,9 @@ fn keep_or_forget(target: Option<Oid>, cc: Cc<Node>) {
     });
     if ok {
         w(|w| {
+            if !w.frames.is_empty() {
+                w.ptr_ops_in_callbacks = true;
+            }
             push_handle(w, target.unwrap(), cc);
         });
     } else {
@@ -465,6 +475,7 @@ pub fn do_try_unwrap(sel: Sel, top: bool) {
             let node = Box::new(node);
             w(|w| {
                 w.stats.unwrap_ok += 1;
+                buf_leave(oid);
                 if w.objs[oid as usize].lost_ptr || pre.3 > 0 {
                     w.flags.c13_ok_hist = true;
                 }
@@ -628,6 +639,7 @@ pub fn do_new_cyclic(spec: &Spec, clo: &[CloOp]) {
             o.uninit = true;
             *w.extra_weak.entry(oid).or_insert(0) += 1; // the provided weak
             w.frames.push(Frame { kind: Fk::Closure, oid, collecting: false, in_batch: false, manual: false });
+            w.ptr_ops_in_callbacks = true;
             // locate the box: newest tracked block since the call started that is no side record
             let blocks = alloc::blocks_since(serial0);
             if let Some(b) = blocks.iter().rev().find(|b| b.live && b.size >= payload_offset() + std::mem::size_of::<Node>()) {
